@@ -503,3 +503,100 @@ Proof.
     apply (Hfin _ _ _ HRa Hregs). intros g v Hin. simpl. apply bind_list_other. exact (Hrsb g v Hin).
 Qed.
 End Hoist.
+
+(* ---- the rule theorems ------------------------------------------------------------------------------ *)
+Lemma trace_strong_of_eq l l' : l' = l -> trace_strong l l'.
+Proof. intros ->. apply trace_strong_refl. Qed.
+
+Theorem rule_merge_g_preserves G orc fresh tg p p' args :
+  rule_merge_g fresh tg p = Some p' -> merge_hyp G fresh tg p = true ->
+  trace_strong (run orc p args) (run orc p' args).
+Proof.
+  unfold rule_merge_g, merge_hyp. destruct (hd_fresh fresh) as [o'|]; [|discriminate].
+  destruct (ctx_prog (merge_g_here o' tg) p) as [q|] eqn:Eq; [|discriminate].
+  intros H Hh. inversion H; subst p'. clear H.
+  apply andb_true_iff in Hh; destruct Hh as [Hh H].
+  apply andb_true_iff in Hh; destruct Hh as [Hh H0].
+  apply andb_true_iff in Hh; destruct Hh as [Hh H1].
+  apply andb_true_iff in Hh; destruct Hh as [Hh H2].
+  apply Bool.negb_true_iff in H1. apply mem_nat_false in H1.
+  eapply trace_strong_trans.
+  - apply (ctx_prog_sound orc G (merge_g_here o' tg)) with (p' := q); try assumption.
+    intros b b' Hb _ _ m m' HR _ _. exact (merge_g_here_sound orc o' tg b b' Hb m m' HR).
+  - apply trace_strong_of_eq. apply (ren_ghost_run orc G tg o'); assumption.
+Qed.
+
+Theorem rule_hoist_g_preserves G orc fresh tg p p' args :
+  rule_hoist_g G fresh tg p = Some p' -> hoist_hyp G fresh tg p = true ->
+  trace_strong (run orc p args) (run orc p' args).
+Proof.
+  unfold rule_hoist_g, hoist_hyp. destruct fresh as [|o1 [|o2 fresh]]; try discriminate.
+  destruct (setup_in_of tg p) as [r|]; [|discriminate].
+  destruct (ctx_prog (hoist_g_here G o1 o2 tg) p) as [q|] eqn:Eq; [|discriminate].
+  intros H Hh. inversion H; subst p'. clear H.
+  apply andb_true_iff in Hh; destruct Hh as [Hh H].
+  apply andb_true_iff in Hh; destruct Hh as [Hh H0].
+  apply andb_true_iff in Hh; destruct Hh as [Hh H1].
+  apply andb_true_iff in Hh; destruct Hh as [Hh H2].
+  apply Bool.negb_true_iff in H1. apply mem_nat_false in H1.
+  eapply trace_strong_trans.
+  - apply (ctx_prog_sound orc G (hoist_g_here G o1 o2 tg)) with (p' := q); try assumption.
+    intros b b' Hb Hgb _ m m' HR _ HZ'. exact (hoist_g_here_sound orc G o1 o2 tg b b' Hb Hgb m m' HR HZ').
+  - apply trace_strong_of_eq. apply (ren_ghost_run orc G tg r); assumption.
+Qed.
+
+Theorem rule_elide_g_preserves G orc tg p p' args :
+  rule_elide_g tg p = Some p' -> elide_hyp G tg p = true ->
+  trace_strong (run orc p args) (run orc p' args).
+Proof.
+  unfold rule_elide_g, elide_hyp, setup_in_of.
+  destruct (setup_in_block tg (p_body p)) as [[[i|] [|fv fs]]|]; try discriminate.
+  intros H Hh. inversion H; subst p'. clear H.
+  apply andb_true_iff in Hh; destruct Hh as [Hh H].
+  apply andb_true_iff in Hh; destruct Hh as [Hh H0].
+  apply andb_true_iff in Hh; destruct Hh as [Hh H1].
+  apply Bool.negb_true_iff in H1. apply mem_nat_false in H1.
+  eapply trace_strong_trans; [apply drop_preserves|].
+  apply trace_strong_of_eq. apply (ren_ghost_run orc G tg i); assumption.
+Qed.
+
+Theorem rule_simplify_g_preserves T orc fresh tg p p' args :
+  rule_simplify_g T fresh tg p = Some p' -> simplify_hyp T fresh tg p = true ->
+  trace_strong (run orc p args) (run orc p' args).
+Proof.
+  unfold rule_simplify_g, simplify_hyp. destruct (hd_fresh fresh) as [o'|]; [|discriminate].
+  intros H Hh. inversion H; subst p'. clear H.
+  apply andb_true_iff in Hh; destruct Hh as [Hh H].
+  apply andb_true_iff in Hh; destruct Hh as [Hh H0].
+  apply andb_true_iff in Hh; destruct Hh as [Hh H1].
+  apply Bool.negb_true_iff in H0, H. apply mem_nat_false in H0, H.
+  eapply trace_strong_trans.
+  - apply (simp_preserves_strong T orc (Nat.eqb tg) p args H1). apply wf_sound. exact Hh.
+  - apply trace_strong_of_eq. apply ren_prog_run. split; assumption.
+Qed.
+
+(* ---- any finite sequence of applications of the proved rules, in any order -------------------------- *)
+Inductive step : prog -> prog -> Prop :=
+| St_simplify T fresh tg p p' : rule_simplify_g T fresh tg p = Some p' -> simplify_hyp T fresh tg p = true -> step p p'
+| St_merge G fresh tg p p' : rule_merge_g fresh tg p = Some p' -> merge_hyp G fresh tg p = true -> step p p'
+| St_elide G tg p p' : rule_elide_g tg p = Some p' -> elide_hyp G tg p = true -> step p p'
+| St_hoist G fresh tg p p' : rule_hoist_g G fresh tg p = Some p' -> hoist_hyp G fresh tg p = true -> step p p'.
+
+Inductive steps : prog -> prog -> Prop :=
+| Steps_nil p : steps p p
+| Steps_cons p q r : step p q -> steps q r -> steps p r.
+
+Lemma step_preserves orc args p p' : step p p' -> trace_strong (run orc p args) (run orc p' args).
+Proof.
+  intros [T fresh tg q q' H Hh|G fresh tg q q' H Hh|G tg q q' H Hh|G fresh tg q q' H Hh].
+  - exact (rule_simplify_g_preserves T orc fresh tg q q' args H Hh).
+  - exact (rule_merge_g_preserves G orc fresh tg q q' args H Hh).
+  - exact (rule_elide_g_preserves G orc tg q q' args H Hh).
+  - exact (rule_hoist_g_preserves G orc fresh tg q q' args H Hh).
+Qed.
+
+Theorem steps_preserve orc args p p' : steps p p' -> trace_strong (run orc p args) (run orc p' args).
+Proof.
+  induction 1 as [p|p q r Hs _ IH]; [apply trace_strong_refl|].
+  eapply trace_strong_trans; [exact (step_preserves orc args p q Hs)|exact IH].
+Qed.
